@@ -82,19 +82,27 @@ func setupAutoload(files []AutoFile) {
 	}
 	dir, _ = filepath.EvalSymlinks(dir)
 	for i, f := range files {
-		body := "<?php\nnamespace App;\n"
+		// "Sub/Name": the class App\Sub\Name in the sub-directory Sub -- a sub-namespace that is never registered with
+		// AddNamespace: the class-path manager discovers the directory on the first lookup (lazy insert into its tree)
+		ns, short, rel := "App", f.Name, f.Name+".php"
+		if k := strings.LastIndex(f.Name, "/"); k >= 0 {
+			ns = "App\\" + strings.ReplaceAll(f.Name[:k], "/", "\\")
+			short = f.Name[k+1:]
+			os.MkdirAll(filepath.Join(dir, f.Name[:k]), 0o755)
+		}
+		body := "<?php\nnamespace " + ns + ";\n"
 		// a body large enough for the load to take a while: the window between "file marked loaded" and
 		// "class registered" is what concurrent autoloads fall into
 		for k := 0; k < 60; k++ {
-			body += fmt.Sprintf("function %s_helper%d() { return %d; }\n", strings.ToLower(f.Name), k, k)
+			body += fmt.Sprintf("function %s_helper%d() { return %d; }\n", strings.ToLower(short), k, k)
 		}
 		if f.Kind == "i" {
-			body += "interface " + f.Name + " {}\n"
+			body += "interface " + short + " {}\n"
 		} else {
-			body += "class " + f.Name + " {}\n"
+			body += "class " + short + " {}\n"
 		}
-		os.WriteFile(filepath.Join(dir, f.Name+".php"), []byte(body), 0o644)
-		autoFiles[f.Name+".php"] = 1000 + i
+		os.WriteFile(filepath.Join(dir, filepath.FromSlash(rel)), []byte(body), 0o644)
+		autoFiles[rel] = 1000 + i
 	}
 	autoDir = dir
 }
@@ -104,8 +112,10 @@ func srcID(from data.From) int {
 		return -3
 	}
 	s := from.GetSource()
-	if id, ok := autoFiles[filepath.Base(s)]; ok && autoDir != "" && strings.HasPrefix(s, autoDir) {
-		return id
+	if autoDir != "" && strings.HasPrefix(s, autoDir) {
+		if id, ok := autoFiles[filepath.ToSlash(strings.TrimPrefix(strings.TrimPrefix(s, autoDir), string(filepath.Separator)))]; ok {
+			return id
+		}
 	}
 	var n int
 	if _, err := fmt.Sscanf(s, "d%d.php", &n); err == nil {
@@ -269,14 +279,17 @@ func runSeq() {
 // ---------------------------------------------------------------- child: one concurrent run in this process
 type Config struct {
 	Autoload   []AutoFile `json:"autoload"`
-	Threads    [][]Op `json:"threads"`
-	GoMaxProcs int    `json:"gomaxprocs"`
-	Stamps     bool   `json:"stamps"` // record invocation/return stamps (adds atomic operations between calls)
-	Temps      []bool `json:"temps"`  // Temps[t]: thread t runs on its own TempVM of the shared base (a request)
-	SharedTemp bool   `json:"sharedtemp"` // the Temps threads all run on ONE TempVM (coroutines spawned inside one request)
-	Repeat     int    `json:"repeat"` // run the same programs on this many fresh VMs (race hunting)
-	KeepAll    bool   `json:"keepall"` // return the results of every repetition
+	Threads    [][]Op     `json:"threads"`
+	GoMaxProcs int        `json:"gomaxprocs"`
+	Stamps     bool       `json:"stamps"`     // record invocation/return stamps (adds atomic operations between calls)
+	Temps      []bool     `json:"temps"`      // Temps[t]: thread t runs on its own TempVM of the shared base (a request)
+	SharedTemp bool       `json:"sharedtemp"` // the Temps threads all run on ONE TempVM (coroutines spawned inside one request)
+	Repeat     int        `json:"repeat"`     // run the same programs on this many fresh VMs (race hunting)
+	KeepAll    bool       `json:"keepall"`    // return the results of every repetition
 }
+
+// a run in which no op completes for this long is a hang
+const hangAfter = 3 * time.Second
 
 func runOnce(cfg *Config) [][]Res {
 	vm := newVM()
@@ -289,6 +302,8 @@ func runOnce(cfg *Config) [][]Res {
 	res := make([][]Res, n)
 	var ready, done sync.WaitGroup
 	var start int32
+	var progress int64
+	pos := make([]int64, n)
 	ready.Add(n)
 	done.Add(n)
 	for t := 0; t < n; t++ {
@@ -309,6 +324,10 @@ func runOnce(cfg *Config) [][]Res {
 				runtime.Gosched()
 			}
 			for i, o := range ops {
+				atomic.StoreInt64(&pos[t], int64(i))
+				if i > 0 {
+					atomic.AddInt64(&progress, 1)
+				}
 				if cfg.Stamps {
 					t0 := atomic.AddInt64(&clock, 1)
 					r := doOp(vm, o)
@@ -319,11 +338,37 @@ func runOnce(cfg *Config) [][]Res {
 				}
 			}
 			res[t] = rs
+			atomic.StoreInt64(&pos[t], int64(len(ops)))
+			atomic.AddInt64(&progress, 1)
 		}(t)
 	}
 	ready.Wait()
 	atomic.StoreInt32(&start, 1)
-	done.Wait()
+	// watchdog: every op of every thread program returns by itself; when NO op completes for hangAfter the run hangs
+	// (deadlock inside the implementation: e.g. a re-entrant RLock behind a pending writer).  The child then reports
+	// the op every unfinished thread is in and exits -- the parent attributes it to this configuration at once.
+	fin := make(chan struct{})
+	go func() { done.Wait(); close(fin) }()
+	lastN, lastT := int64(-1), time.Now()
+	for waiting := true; waiting; {
+		select {
+		case <-fin:
+			waiting = false
+		case <-time.After(200 * time.Millisecond):
+			if n := atomic.LoadInt64(&progress); n != lastN {
+				lastN, lastT = n, time.Now()
+			} else if time.Since(lastT) > hangAfter {
+				var stuck []map[string]any
+				for t := range pos {
+					if i := int(atomic.LoadInt64(&pos[t])); i < len(cfg.Threads[t]) {
+						stuck = append(stuck, map[string]any{"thread": t, "index": i, "op": cfg.Threads[t][i]})
+					}
+				}
+				json.NewEncoder(os.Stdout).Encode(map[string]any{"hang": stuck, "ops_completed": lastN})
+				os.Exit(4)
+			}
+		}
+	}
 	// cell identities: number the distinct *ZVal pointers; the id of a cell is thread*100000+index of the
 	// lexicographically first call that returned it (any injective naming works: the check only compares ids)
 	cells := map[*data.ZVal]int{}
@@ -398,7 +443,7 @@ func runStress() {
 		var so, se bytes.Buffer
 		cmd.Stdout, cmd.Stderr = &so, &se
 		cmd.Env = append(os.Environ(), "GORACE=halt_on_error=1")
-		timer := time.AfterFunc(300*time.Second, func() { cmd.Process.Kill() })
+		timer := time.AfterFunc(120*time.Second, func() { cmd.Process.Kill() })
 		err := cmd.Run()
 		timer.Stop()
 		exit := 0
@@ -431,9 +476,16 @@ func runStress() {
 				}
 				// the function that performs each of the two racing accesses
 				if (strings.HasPrefix(l, "Read at") || strings.HasPrefix(l, "Write at") || strings.HasPrefix(l, "Previous ")) && i+1 < len(lines) {
-					keep = append(keep, "ACCESS "+strings.TrimSpace(lines[i+1]))
+					// the innermost frames of the access (function lines are indented by two spaces, file lines by six)
+					nf := 0
+					for j := i + 1; j < len(lines) && strings.TrimSpace(lines[j]) != "" && nf < 4; j++ {
+						if strings.HasPrefix(lines[j], "  ") && !strings.HasPrefix(lines[j], "    ") {
+							keep = append(keep, "ACCESS "+strings.TrimSpace(lines[j]))
+							nf++
+						}
+					}
 				}
-				if len(keep) > 16 {
+				if len(keep) > 24 {
 					break
 				}
 			}
@@ -444,6 +496,11 @@ func runStress() {
 		for _, l := range strings.Split(so.String(), "\n") {
 			var parsed map[string]any
 			if strings.TrimSpace(l) != "" && json.Unmarshal([]byte(l), &parsed) == nil {
+				if h, ok := parsed["hang"]; ok {
+					o["hang"] = h
+					o["ops_completed"] = parsed["ops_completed"]
+					continue
+				}
 				results = append(results, parsed["res"])
 				alls = append(alls, parsed["all"])
 			}
@@ -481,12 +538,23 @@ func runScript() {
 		setupAutoload(c.Autoload)
 		var outs []map[string]string
 		for i := 0; i < c.Repeat; i++ {
-			r := vrun.RunStringSpawn(c.Src, "c10script.php", func(vm data.VM) {
-				if autoDir != "" {
-					vm.AddNamespace("App", autoDir)
-				}
-			})
-			outs = append(outs, map[string]string{"out": r.Out, "outcome": r.Outcome, "detail": r.Detail})
+			done := make(chan vrun.Result, 1)
+			go func() {
+				done <- vrun.RunStringSpawn(c.Src, "c10script.php", func(vm data.VM) {
+					if autoDir != "" {
+						vm.AddNamespace("App", autoDir)
+					}
+				})
+			}()
+			select {
+			case r := <-done:
+				outs = append(outs, map[string]string{"out": r.Out, "outcome": r.Outcome, "detail": r.Detail})
+			case <-time.After(8 * time.Second):
+				// every script of the check terminates by construction: a run that does not come back is a hang
+				outs = append(outs, map[string]string{"out": "", "outcome": "hang", "detail": fmt.Sprintf("run %d of %d did not finish within 8 s", i+1, c.Repeat)})
+				out.Encode(map[string]any{"runs": outs})
+				os.Exit(3)
+			}
 		}
 		out.Encode(map[string]any{"runs": outs})
 	})
